@@ -179,7 +179,7 @@ def tlc_run(name, root, consts, inv=(), prop=(), view=None, constraint=None, act
 # ---------------------------------------------------------------------------------------------
 # replaying rows on the code
 # ---------------------------------------------------------------------------------------------
-def replay_rows(binpath, rows_file, ptype, coll="map", ctx="plain", max_mismatch=40, timeout=900, extra=(), cmdname="replay"):
+def replay_rows(binpath, rows_file, ptype, coll="map", ctx="plain", max_mismatch=40, timeout=3000, extra=(), cmdname="replay"):
     tagbase = f"{os.path.basename(os.path.dirname(rows_file))}_{ptype}_{coll}_{ctx.replace(':','')}" + ("_rel" if "release" in extra else "")
     out = os.path.join(WORK, f"rep_{tagbase}.json")
     side = os.path.join(WORK, f"side_{tagbase}.ndjson")
@@ -191,9 +191,10 @@ def replay_rows(binpath, rows_file, ptype, coll="map", ctx="plain", max_mismatch
     try:
         p = subprocess.run(cmd, capture_output=True, text=True, timeout=timeout)
     except subprocess.TimeoutExpired:
-        # the code under test did not terminate: that is data for C20, reported by the caller
-        return dict(ptype=ptype, coll=coll, ctx=ctx, diverged=True, executed=0, mismatches=[], mismatch_count=0,
-                    per_action={}, states=0, samples=[])
+        # A call of the code under test that does not return is detected by the harness's own watchdog (exit
+        # status 3, below) and is data.  The whole process running out of time says nothing about the code (a
+        # loaded machine is enough): tool error, never a violation.
+        raise ToolError(f"replay of {os.path.basename(rows_file)} on {ptype}/{coll} did not finish within {timeout}s")
     if p.returncode == 3:
         d = json.load(open(out))
         return dict(ptype=ptype, coll=coll, ctx=ctx, diverged=True, event=d.get("event"), executed=0, mismatches=[],
@@ -244,7 +245,7 @@ def _trace_dir(tag):
     return d
 
 
-def record_trace(binpath, tag, ptype, profile, runs, events, sd, timeout=600):
+def record_trace(binpath, tag, ptype, profile, runs, events, sd, timeout=1800):
     d = _trace_dir(tag)
     tf = os.path.join(d, "trace.ndjson")
     cmd = [binpath, "trace", "--type", ptype, "--seed", str(sd), "--runs", str(runs), "--events", str(events),
@@ -252,7 +253,7 @@ def record_trace(binpath, tag, ptype, profile, runs, events, sd, timeout=600):
     try:
         p = subprocess.run(cmd, capture_output=True, text=True, timeout=timeout)
     except subprocess.TimeoutExpired:
-        return dict(dir=d, trace=tf, diverged=True, ptype=ptype, profile=profile)
+        raise ToolError(f"trace driver {ptype}/{profile} did not finish within {timeout}s")
     if p.returncode == 3:
         dv = json.loads(p.stdout.strip().split("\n")[-1])
         return dict(dir=d, trace=tf, diverged=True, event=dv.get("event"), ptype=ptype, profile=profile)
